@@ -1,0 +1,29 @@
+//go:build verif
+
+package panos
+
+import (
+	"net/http"
+	"os"
+)
+
+// Hooks for the verification of property C17 (secrets never reach logs).
+// They call the real, unchanged functions with a caller supplied transport,
+// so that the masking code is exercised in place.
+
+// VerifGetAPIKey runs getAPIKey (passRE, keyRE, DoLog) against transport rt.
+func VerifGetAPIKey(
+	addr, user, pass string, rt http.RoundTripper, logFH *os.File,
+) (string, error) {
+	s := &State{client: &http.Client{Transport: rt}}
+	return s.getAPIKey(addr, user, pass, logFH)
+}
+
+// VerifHTTPPrefixGetLog runs httpPrefixGetLog (apiRE, DoLog) with the given
+// urlPrefix against transport rt.
+func VerifHTTPPrefixGetLog(
+	urlPrefix, uri string, rt http.RoundTripper, logFH *os.File,
+) ([]byte, error) {
+	s := &State{client: &http.Client{Transport: rt}, urlPrefix: urlPrefix}
+	return s.httpPrefixGetLog(uri, logFH)
+}
